@@ -278,6 +278,19 @@ func ruleFrame(c *Ctx) {
 			continue
 		}
 		parts := seqParts(body)
+		// if(c, X·B, Y·B) is if(c, X, Y)·B: an early return for the untagged
+		// form repeats the body in both arms
+		if len(parts) == 1 && parts[0].Op == "if" && len(parts[0].A) == 3 {
+			l, r := seqParts(parts[0].A[1]), seqParts(parts[0].A[2])
+			var common []*T
+			for len(l) > 0 && len(r) > 0 && l[len(l)-1].String() == r[len(r)-1].String() {
+				common = append([]*T{l[len(l)-1]}, common...)
+				l, r = l[:len(l)-1], r[:len(r)-1]
+			}
+			if len(common) > 0 {
+				parts = append([]*T{mk("if", parts[0].K, parts[0].A[0], tSeq(l...), tSeq(r...))}, common...)
+			}
+		}
 		wt := consts[0]
 		switch {
 		case ct.Name == "plenccodec.ProtoSliceWrapper" || ct.Name == "plenccodec.ProtoMapCodec":
